@@ -18,7 +18,7 @@ RULE = ("kernel cases = (loop nest of depth 1-3: per level a source {fiber, a&b,
         "pre-populated outputs, declared trace set, thresholds subset of {2,3,5,1000}, default 0 or 7); small scope: "
         "every depth-1 form x all pairs of leaf fibers over 2 (quick) / 3 (thorough) coordinates x {absent, explicit "
         "default, value} x 4 trace sets, depth-2/3 templates (SpMV, reductions, Gustavson, inner/outer product, "
-        "copy, dense iterShapeRef() outer loops) on seeded random trees, populate destination ranks in format C or U, input ranks of format U (declared / estimated extents, tensor-owned and unowned fibers), multi-digit coordinates, float values and defaults, stale trace files of the previous session, loop ranks with flattened 2-tuple coordinates (associateShape), lazy operands built before beginCollect in every other case, a lazy fiber built inside and iterated after the collection; api cases = seeded random Metrics call sequences (nest-shaped with "
+        "copy, dense iterShapeRef() outer loops) on seeded random trees, populate destination ranks in format C or U, input ranks of format U (declared / estimated extents, tensor-owned and unowned fibers), multi-digit coordinates, float values and defaults, stale trace files of the previous session, a non-ticking walk of lazy unions of all operand fibers before the nest in every other case, loop ranks with flattened 2-tuple coordinates (associateShape), lazy operands built before beginCollect in every other case, a lazy fiber built inside and iterated after the collection; api cases = seeded random Metrics call sequences (nest-shaped with "
         "perturbations: late/duplicate declarations, double matches, uses on unregistered ranks, interleaved "
         "consumeTrace). non-trivial = a traced file with >= 2 data rows (kernel) / a flush or a consume happened (api)")
 
@@ -140,9 +140,13 @@ def finish_case(levels, ops, z, traced, thresholds, dflt=0, prematch=True):
             s["own"] = False
     # lazy operands (a & b, projections, z << ...) are built before beginCollect() in every other case
     early = (len(json.dumps([levels, ops, z])) % 2) == 0
+    # in every other case the kernel first sizes its buffers: it walks lazy unions of the operands' fibers
+    # of every rank WITHOUT ticking, inside the collection bracket, before the nest (fiber labels are drawn
+    # for ranks that are not part of the loop order yet)
+    prelude = (len(json.dumps([levels, ops, z])) // 2 % 2) == 0
     return {"prop": PROP, "op": "kernel", "dflt": dflt, "levels": levels, "ops": ops, "z": z,
             "traced": traced, "matches": matches, "prematch": bool(prematch), "thresholds": thresholds,
-            "early": early}
+            "early": early, "prelude": prelude}
 
 
 def _mk_ops(levels, trees):
@@ -618,6 +622,27 @@ class _DestSpy:
                 self.bad.append([rank, ty, coord, pos, coords])
 
 
+def _prelude(ft, levels, ops):
+    """evaluate, without ticking, a lazy union over the fibers of every rank of every operand (what a kernel
+    does to size a buffer: len(a_k | b_k)); returns the number of elements seen"""
+    seen = 0
+    for x, root in enumerate(ops):
+        if root is None:
+            continue
+        frontier = [root]
+        for _ in op_levels(levels, x):
+            nxt = []
+            for f in frontier:
+                other = frontier[0]
+                for _c, p in (f | other).iterOccupancy(tick=False):
+                    seen += 1
+                for _c, p in f.iterOccupancy(tick=False):
+                    if isinstance(p, ft.Fiber):
+                        nxt.append(p)
+            frontier = nxt
+    return seen
+
+
 def _build_expr(ft, lv, ops, z):
     """the iterable of one `for` of the nest"""
     s = lv["src"]
@@ -746,6 +771,8 @@ def _run_kernel_once(ft, case, ncu, consumable, clean=True):
         if case.get("prematch", True):
             for a, b in case["matches"]:
                 M.matchRanks(a, b)
+        if case.get("prelude"):
+            _prelude(ft, levels, ops)
         with _DestSpy(ft) as spy:
             _exec_nest(ft, levels, ops, z, 0, spy, pre)
         dest = (spy.checked, spy.bad[:2])
